@@ -245,7 +245,11 @@ def post_sample_map(self, size, OLD, result):
     pre = OLD.pre
     _unchanged('sample_individual_map_with_replacement', pre, self)
     got = read_map(result)
-    for mech, msg in sh.judge_individual_sample(pre['data'], pre['panel'], pre['map'] or [], got, size):
+    notes = []
+    res = sh.judge_individual_sample(pre['data'], pre['panel'], pre['map'] or [], got, size, notes)
+    for n in notes:
+        _c(n)
+    for mech, msg in res:
         _v(mech, f'sample_individual_map_with_replacement({size}): {msg}')
 
 
